@@ -130,7 +130,7 @@ fn strong_cfg(known_shapes: bool) -> AspCfg {
         }
     } else {
         AspCfg {
-            preds: vec![("p".into(), 1), ("hp".into(), 1), ("tp".into(), 2), ("q_i".into(), 1), ("s".into(), 0), ("x__s".into(), 1), ("r_g".into(), 0)],
+            preds: vec![("p".into(), 1), ("hp".into(), 1), ("tp".into(), 2), ("q_i".into(), 1), ("s".into(), 0), ("x__s".into(), 1), ("r_g".into(), 0), ("w".into(), 11)],
             vars: vec!["X".into(), "Y".into(), "V1".into()],
             syms: vec!["a".into(), "s".into(), "b_s".into(), "aB_1".into(), "a1".into(), "a_".into(), "ab".into(), "s0".into(), "sA".into(), "r_g".into(), "location_b".into(), "location_a".into(), "locationA".into(), "constant2".into(), "constant".into(), "constant_".into()],
             num_lo: -2,
@@ -651,8 +651,14 @@ impl Check for C12 {
                         return Outcome::fail("transition-axiom-role", format!("C12: {} is a conjecture", f.name));
                     }
                     let fm = crate::ir::lower(&f.formula);
-                    let ev = Ev::classical(&classical, &pool, false);
-                    if ev.sat(&fm, &mut Env::new(), World::T) != Some(true) {
+                    // exact mode: the guard hp(X...) yields the candidate tuples, so wide predicates
+                    // are no problem; an undecided verdict is never a violation
+                    let ev = Ev::classical(&classical, &pool, true).with_budget(2_000_000);
+                    let verdict = ev.sat(&fm, &mut Env::new(), World::T);
+                    if verdict.is_none() {
+                        labels.push("transition-axiom-undecided".to_string());
+                    }
+                    if verdict == Some(false) {
                         return Outcome::fail(
                             "transition-axiom-false",
                             format!(
